@@ -5,6 +5,7 @@ package c19
 import (
 	"fmt"
 	"os"
+	"runtime/debug"
 	"strings"
 	"time"
 
@@ -29,6 +30,9 @@ func safe(f func()) (perr string) {
 			perr = o.Err
 			if common.Fault(o.Msg) {
 				perr = "fault"
+				if os.Getenv("VERIF_C19_STACK") != "" {
+					fmt.Fprintf(os.Stderr, "FAULT %s\n%s\n", o.Msg, debug.Stack())
+				}
 			}
 			if perr == "" {
 				perr = "error"
